@@ -294,7 +294,8 @@ def run(ctx) -> None:
                     if m != model_marker[p] or t != fresh_trees[model_marker[p]][p]:
                         ctx.drift("C07|cache_state_differs_from_model", dict(history=h, step=si, patch=p, marker=m, model_marker=model_marker))
                         break
-                after = [(work / f"patch_{p}" / "trees.pkl").stat().st_mtime_ns for p in range(cw.NPATCH)]
+                after = [(work / f"patch_{p}" / "trees.pkl").stat().st_mtime_ns if (work / f"patch_{p}" / "trees.pkl").exists() else None
+                         for p in range(cw.NPATCH)]
                 rebuilt = after != before
                 if rebuilt == reuse and before[0] is not None and len(set(model_marker)) == 1 and not any(o == "ibuild" for o, _, _ in h[:si]):
                     ctx.drift("C07|reuse_decision_differs_from_model", dict(history=h, step=si, model_reuse=reuse, real_rebuilt=rebuilt))
